@@ -1,0 +1,16 @@
+//go:build verif
+
+package cmd
+
+import (
+	"context"
+
+	"github.com/spf13/cobra"
+)
+
+// VerifMakeRoot returns a fresh root command whose context carries the given backend. The backend
+// context key is unexported, so an external verification harness cannot otherwise inject the IO,
+// getter, quote provider and clock that the CLI commands read. Only built with -tags verif.
+func VerifMakeRoot(ctx context.Context, b *Backend) *cobra.Command {
+	return MakeRoot(context.WithValue(ctx, backendKey, b))
+}
